@@ -2553,9 +2553,19 @@ func c08r25(rc *core.RC) {
 			if !ok || loop.Cond == nil || loop.Init != nil || loop.Post != nil {
 				return true
 			}
-			// the condition compares x.Op with OpStructHead or OpStructField
+			// the condition compares x.Op with OpStructHead or OpStructField (itself, or in the one-line helper it calls)
 			cmpHead, flag := false, false
-			ast.Inspect(loop.Cond, func(c ast.Node) bool {
+			var cond ast.Node = loop.Cond
+			if call, isCall := core.Unparen(loop.Cond).(*ast.CallExpr); isCall {
+				if f := core.Callee(info, call); f != nil && f.Pkg() == pk.Types {
+					if hd := p.DeclOf(f); hd != nil && hd.Body != nil && len(hd.Body.List) == 1 {
+						if r, isRet := hd.Body.List[0].(*ast.ReturnStmt); isRet && len(r.Results) == 1 {
+							cond = r.Results[0]
+						}
+					}
+				}
+			}
+			ast.Inspect(cond, func(c ast.Node) bool {
 				switch x := c.(type) {
 				case *ast.BinaryExpr:
 					if x.Op == token.EQL {
@@ -3043,5 +3053,91 @@ func contextNotNil(rc *core.RC, short, method string, nargs, min int) {
 	}
 	if n < min {
 		rc.Unknown(short+"/"+method+"(ctx)-calls", token.NoPos, "found %d calls of %s(context.Context …), fewer than the %d confirmed by hand", n, method, min)
+	}
+}
+
+// ---- C08.R30 the last member of an embedded struct has somewhere to go on, however deep it lies ----
+
+// A member that can be omitted follows NextField when it is. For the last member of an embedded struct that link is
+// made by whoever places the struct: the next member of the embedding struct, or the end of the struct. Three places
+// make it, and each has to reach the member that is really the last one, which lies one level deeper for every
+// embedded struct that stands last in an embedded struct: (1) ToAnonymousOpcode, for an embedded member of an
+// embedded struct, links the result of lastAnonymousFieldCode to the next member, as ToOpcode does through
+// lastFieldCode; (2) lastAnonymousFieldCode and (3) addStructEndCode follow NextField inside a loop that goes on
+// while the operation reached is the head of another embedded struct. Without (1) struct{ E1; Z } with
+// E1{ E2; B } and E2{ Y omitempty } lost B whenever Y was empty; without (2) and (3) the inner member kept a nil link
+// and the interpreter dereferenced it.
+func c08r30(rc *core.RC) {
+	p := rc.P
+	pk := p.Pkg("encoder")
+	if pk == nil {
+		return
+	}
+	info := pk.TypesInfo
+	// (1)
+	{
+		key := "encoder.(*StructCode).ToAnonymousOpcode/last-member-of-an-embedded-member-linked"
+		fd := p.Func("encoder", "StructCode.ToAnonymousOpcode")
+		if fd == nil || fd.Body == nil {
+			rc.Unknown(key, token.NoPos, "ToAnonymousOpcode not found")
+		} else {
+			rc.Touch(p.FuncName(fd))
+			// a local that receives lastAnonymousFieldCode(…) / lastFieldCode(…) and whose NextField is assigned
+			got := map[types.Object]bool{}
+			ast.Inspect(fd.Body, func(m ast.Node) bool {
+				if as, ok := m.(*ast.AssignStmt); ok && len(as.Lhs) == 1 && len(as.Rhs) == 1 {
+					if c, isCall := core.Unparen(as.Rhs[0]).(*ast.CallExpr); isCall {
+						if cn := core.CalleeName(info, c); strings.HasSuffix(cn, "lastAnonymousFieldCode") || strings.HasSuffix(cn, "lastFieldCode") {
+							if o := core.ObjOf(info, as.Lhs[0]); o != nil {
+								got[o] = true
+							}
+						}
+					}
+				}
+				return true
+			})
+			linked := false
+			ast.Inspect(fd.Body, func(m ast.Node) bool {
+				if as, ok := m.(*ast.AssignStmt); ok && len(as.Lhs) == 1 {
+					if sel, isSel := core.Unparen(as.Lhs[0]).(*ast.SelectorExpr); isSel && sel.Sel.Name == "NextField" && got[core.ObjOf(info, sel.X)] {
+						linked = true
+					}
+				}
+				return true
+			})
+			rc.Check(linked, key, fd.Pos(), "ToAnonymousOpcode links the last member of an embedded member (lastAnonymousFieldCode / lastFieldCode) to the member behind it; linking only the embedded member's first operation leaves its last member going on behind the embedding struct, and the members in between are not written when it is omitted")
+		}
+	}
+	// (2), (3)
+	for _, name := range []string{"StructCode.lastAnonymousFieldCode", "StructFieldCode.addStructEndCode"} {
+		key := "encoder." + name + "/descends-through-embedded-structs-that-stand-last"
+		fd := p.Func("encoder", name)
+		if fd == nil || fd.Body == nil {
+			rc.Unknown(key, token.NoPos, "function not found")
+			continue
+		}
+		rc.Touch(p.FuncName(fd))
+		nested := false
+		ast.Inspect(fd.Body, func(m ast.Node) bool {
+			outer, ok := m.(*ast.ForStmt)
+			if !ok || outer.Cond == nil {
+				return true
+			}
+			ast.Inspect(outer.Body, func(q ast.Node) bool {
+				inner, isFor := q.(*ast.ForStmt)
+				if !isFor || inner.Cond == nil {
+					return true
+				}
+				be, isB := core.Unparen(inner.Cond).(*ast.BinaryExpr)
+				if isB && be.Op == token.NEQ {
+					if f := core.FieldOf(info, be.X); f != nil && f.Name() == "NextField" {
+						nested = true
+					}
+				}
+				return true
+			})
+			return true
+		})
+		rc.Check(nested, key, fd.Pos(), "the walk along NextField stands inside a loop that goes on while the operation reached heads another embedded struct: an embedded struct that stands last in an embedded struct has its last member one level deeper, and that member's link stays nil otherwise (nil dereference in the interpreter when it is omitted)")
 	}
 }
